@@ -1,0 +1,11 @@
+//go:build verif
+
+package emulate
+
+import (
+	"mltwist/internal/consoleui"
+	"mltwist/internal/state"
+)
+
+// VerifRegView returns the register view of the emulation mode for state s.
+func VerifRegView(s *state.State) consoleui.VerifView { return newRegView(s) }
